@@ -2584,3 +2584,53 @@ for _p in ("C01", "C02", "C03", "C07", "C09", "C11"):
 for _p in ("C04", "C09", "C12"):
     VARIANTS.append(dict(prop=_p, id="around/kernels-compiled-with-fastmath", kind="M", rule="", expect_code=2, patch=_os.path.join(_HP, "refused-fastmath.diff"),
                          note="the assumption 'Python arithmetic in compiled kernels' is given up: refused, never a silent pass"))
+
+# =============================================================================================
+# rounds 8-9
+# =============================================================================================
+M("C13", "r8/annotator-mapping-keyed-by-lowercase", CONT,
+  "        self._annotations: SortedDict = SortedDict()", "        self._annotations: SortedDict = SortedDict(str.lower)", "R-C13-1")
+M("C10", "r8/annotator-mapping-keyed-by-length", CONT,
+  "        self._annotations: SortedDict = SortedDict()", "        self._annotations: SortedDict = SortedDict(key=len)", "R-SUP", "")
+M("C17", "r8/unit-str-formats-optional-label", CONT,
+  """        else:
+            return self.segment < other.segment
+""", """        else:
+            return self.segment < other.segment
+
+    def __str__(self):
+        return f"{self.annotation:>8} [{self.segment.start:.3f}, {self.segment.end:.3f}]"
+""", "R-C17-1")
+B("C17", "r8/unit-str-plain", CONT,
+  """        else:
+            return self.segment < other.segment
+""", """        else:
+            return self.segment < other.segment
+
+    def __str__(self):
+        return f"{self.annotation} [{self.segment.start}, {self.segment.end}]"
+""", "a plain f-string over the fields cannot fail")
+M("C15", "r9/ground-truth-kept-from-previous-initialisation", SAM,
+  """        if ground_truth_annotators is None:
+            self._ground_truth_annotators = self._reference_continuum.annotators""",
+  """        if ground_truth_annotators is None:
+            self._ground_truth_annotators = self._ground_truth_annotators or self._reference_continuum.annotators""", "R-C15-3")
+M("C09", "r9/segment-snapped-to-grid", CONT,
+  """        if segment.duration == 0.0:
+            raise ValueError("Tried adding segment of duration 0.0")
+""", """        if segment.duration == 0.0:
+            raise ValueError("Tried adding segment of duration 0.0")
+        segment = Segment(round(segment.start, 6), round(segment.end, 6)) or segment
+""", "R-C09-3")
+M2("C06", "r8/stale-cached-property-on-sampler", [
+    (SAM, "from abc import ABCMeta, abstractmethod\n", "from abc import ABCMeta, abstractmethod\nfrom functools import cached_property\n"),
+    (SAM, """    @staticmethod
+    def _remove_pivot_segment(pivot: float, segments: List[Segment], dist: float) -> List[Segment]:""",
+     """    @cached_property
+    def _pool(self):
+        return np.array(self._ground_truth_annotators)
+
+    @staticmethod
+    def _remove_pivot_segment(pivot: float, segments: List[Segment], dist: float) -> List[Segment]:"""),
+    (SAM, "                rnd_annotator = np.random.choice(annotators)", "                rnd_annotator = np.random.choice(self._pool)")],
+   "R-DECORATORS", "memo over a field that init_sampling reassigns: a re-used sampler draws from the first ground truth")
